@@ -940,3 +940,26 @@ def chunks(tier, seed):
                 emit((body, e, rng.choice(["dot", "slash"]), o))
         yield from flush()
     yield from flush(force=True)
+
+
+def corpus_chunks():
+    """Finding witnesses and the inputs of the five repaired defects (run first)."""
+    d = (True, False, False, True, False, False)        # values only, default alias mode
+    k = (True, True, False, True, False, False)
+    a = (True, False, False, False, False, False)       # --anchorsonly
+    cases = [
+        ("{a: {b: a}}", "=a", "dot", k),                                  # F-C07-1
+        ('{"&q": a}', "=a", "dot", d), ('{"a\\\\.b": a}', "=a", "dot", d), ('{"": a}', "=a", "slash", d),   # F-C07-2
+        ("a", "=a", "dot", d),                                             # F-C07-3
+        ("[&x a, &x b, *x]", "=b", "dot", a),                              # F-C07-4
+        ("[!!set {x, y}, x]", "=x", "dot", d),                             # fixed d9ff2cf
+        ("{a: &x {k: v}, b: *x}", "=v", "dot", d), ("{a: &x {k: v}, b: *x}", "=v", "slash", a),   # fixed da0a3a5
+        ("{x: {&k a: 1}, y: {*k : 2}}", "=a", "dot", (True, True, False, False, False, False)),   # fixed 0862173
+        ("{x: {&k a: 1}, y: {*k : 2}}", "=2", "dot", a),
+        ("{a: !!set {x, y}}", "=a", "dot", (True, True, False, True, False, True)),               # fixed 0cb31d9
+        ("{a: &x {k: v}, b: {<<: *x}}", "=x", "dot", (True, False, False, False, True, False)),   # fixed 47fc504
+        ("{a: &x {k: v}, b: {<<: *x}}", "=x", "dot", (True, False, True, False, True, False)),
+        ('[{1: [&w0 {"c d": b, "a.b": &w0 1.5}, *w0]}, [true, \'a b\'], 2]', "$1", "slash",
+         (True, True, False, True, True, True)),                          # thorough-tier find
+    ]
+    return [cases]
